@@ -13,18 +13,23 @@ var c19Faults = []struct {
 	text  string
 	exact bool
 }{
-	{"a{$x ^}b", true},     // 0 illegal character in a tag
-	{"a } b", true},        // 1 stray closing brace in text
-	{"a{/foo}b", true},     // 2 unknown command
-	{"a{1a}b", true},       // 3 bad number
-	{"a{$x|}b", true},      // 4 missing directive name
-	{"a{if}b{/if}", true},  // 5 missing condition
-	{"a{'abc}b", false},    // 6 unterminated string
-	{"a /* abc", false},    // 7 unterminated comment
-	{"a{if $x", false},     // 8 unterminated tag
-	{"a{$x b}b", true},     // 9 two operands without an operator
-	{"a{call .u}b", false}, // 10 unterminated call block
-	{"a{else}b", true},     // 11 else outside if
+	{"a{$x ^}b", true},                                  // 0 illegal character in a tag
+	{"a } b", true},                                     // 1 stray closing brace in text
+	{"a{/foo}b", true},                                  // 2 unknown command
+	{"a{1a}b", true},                                    // 3 bad number
+	{"a{$x|}b", true},                                   // 4 missing directive name
+	{"a{if}b{/if}", true},                               // 5 missing condition
+	{"a{'abc}b", false},                                 // 6 unterminated string
+	{"a /* abc", false},                                 // 7 unterminated comment
+	{"a{if $x", false},                                  // 8 unterminated tag
+	{"a{$x b}b", true},                                  // 9 two operands without an operator
+	{"a{call .u}b", false},                              // 10 unterminated call block
+	{"a{else}b", true},                                  // 11 else outside if
+	{"a{9223372036854775808}b", true},                   // 12 integer literal out of range
+	{"a{0x10000000000000000}b", true},                   // 13 hex literal out of range
+	{"a{$x.99999999999999999999}b", true},               // 14 list index out of range
+	{"a{$x[1e999]}b", true},                             // 15 float literal out of range
+	{"a{call .t data=\"9223372036854775808\"/}b", true}, // 16 the same inside a quoted attribute
 }
 
 var c19NL = []string{"\n", "\r\n", "\n\n"}
